@@ -5,6 +5,11 @@
      ERequest rid r tn   a CON request (fresh request id, any remote, any admissible tuning tn attached to the message),
      ERecv r is_rst mid  an empty ACK / RST datagram from any remote with any message id,
      EWaitUntil / EFire / EFireDue   passage of time and timer callbacks (timers fire exactly when due),
+     EError r            the transport reports an error for r (MessageManager.dispatch_error),
+     ECancel rid         the requester cancels Request.response,
+     EResponse r ty mid rid   a 2.05 response from r (piggy-backed ACK / separate CON / NON) carrying the token of request rid,
+     ERefuse r false     (a transport that does NOT refuse datagrams synchronously: [wf_run] admits ERefuse only with `false`;
+                          with a refusing transport theorems 3, 7 are false of the code -- see C03_refused_retransmission_refuted),
    and every scripted random stream in [0,1].  [trace_of] is the list of outputs (datagrams sent with their time, request
    failures with their time); times are integer microseconds.  tn = (ACK_TIMEOUT us, ACK_RANDOM_FACTOR = num/den, MAX_RETRANSMIT). *)
 From Coq Require Import QArith String.
@@ -36,7 +41,9 @@ Print Assumptions C03_sched_gaps.
       is not overdue (the clock never passes a pending timer), or all 1 + MAX_RETRANSMIT copies were sent and the request failed
       with ConRetransmitsExceeded exactly at T0 + t*(2^(MAX_RETRANSMIT+1) - 1), one more doubled interval after the last copy *)
 Theorem C03_gives_up : forall mid0 draws evs t m, wf_run draws evs -> In (OSend t m) (trace_of mid0 draws evs) ->
-  ~ In (m_remote m, m_mid m) (recv_keys evs) ->
+  ~ In (m_remote m, m_mid m) (recv_keys evs) ->       (* no ACK / RST / piggy-backed response with its (remote, mid) *)
+  ~ In (err_key (m_remote m)) (recv_keys evs) ->      (* no transport error reported for its remote *)
+  ~ In (gone_key (m_rid m)) (recv_keys evs) ->        (* the request was neither cancelled nor answered by a separate response *)
   exists T0 t0 n, copies (m_rid m) (trace_of mid0 draws evs) = sched_of m T0 t0 n /\ (0 < n)%nat /\ range (m_tuning m) t0 /\
     Z.of_nat n <= MAX_RETRANSMIT (m_tuning m) + 1 /\
     ( (exists e, In e (active_exchanges (final_of mid0 draws evs)) /\ h_message (e_timer e) = m /\
@@ -69,9 +76,28 @@ Theorem C03_ack_stops : forall mid0 draws evs1 r b mid evs2 mon h,
   let '(st2, o) := step st1 (ERecv r b mid) in
   let '(st3, os) := run st2 evs2 in
   mon = m_rid (h_message h) /\ copies mon (o ++ concat os) = [] /\
-  (if b then In (OFail (now st1) mon MessageError) o else forall t e, ~ In (OFail t mon e) o).
+  (if b then In (gone_key mon) (recv_keys evs1) \/ In (OFail (now st1) mon MessageError) o else forall t e, ~ In (OFail t mon e) o).
 Proof. exact ack_stops. Qed.
 Print Assumptions C03_ack_stops.
+
+(* 4b. a transport error reported for r (ICMP; MessageManager.dispatch_error): no further copy of any message that was in an
+       exchange with r or backlogged for r, in this step or in any continuation; every request pending towards r fails at once *)
+Theorem C03_transport_error_stops : forall mid0 draws evs1 r evs2, wf_run draws (evs1 ++ EError r :: evs2) ->
+  let st1 := final_of mid0 draws evs1 in
+  let '(st2, o) := step st1 (EError r) in
+  let '(st3, os) := run st2 evs2 in
+  (forall e, In e (active_exchanges st1) -> e_remote e = r -> copies (e_rid e) (o ++ concat os) = []) /\
+  (forall q p, In (r, q) (backlogs st1) -> In p q -> copies (m_rid (fst p)) (o ++ concat os) = []) /\
+  (forall rid, In (rid, r) (outgoing_requests st1) -> In (OFail (now st1) rid NetworkError) o).
+Proof. exact error_stops. Qed.
+Print Assumptions C03_transport_error_stops.
+
+(* 4c. cancelling the request does NOT stop the retransmission: the message layer is not told (send_message returns no canceller);
+       theorems 1-3 keep holding for the cancelled request's message (3 without the failure, there is no request left to fail) *)
+Theorem C03_cancel_inert : forall st rid, let '(st', o) := step st (ECancel rid) in
+  active_exchanges st' = active_exchanges st /\ backlogs st' = backlogs st /\ now st' = now st /\ o = [].
+Proof. exact cancel_inert. Qed.
+Print Assumptions C03_cancel_inert.
 
 (* 5. an empty ACK / RST with another message id or from another endpoint (no outstanding exchange has that (remote, mid))
       changes nothing at all -- no entry, timer, counter, backlog, request -- and produces nothing; in any state *)
@@ -128,5 +154,60 @@ Example C03_demo_ack :
   trace_of 3 [0] [ERequest 1 7 dflt; EFire; ERecv 7 true 3; EFire; EFire] =
   [ODraw 0 2000000 3000000 2000000; OSend 0 m; OSend 2000000 m; OFail 2000000 1 MessageError].
 Proof. vm_compute. reflexivity. Qed.
+(* documented behaviour outside the property text: a cancelled request, and a request answered by a SEPARATE response (no ACK),
+   keep being retransmitted until MAX_RETRANSMIT; the give-up then fails nobody *)
+Example C03_cancelled_request_still_retransmitted :
+  let m := {| m_remote := 7; m_mid := 3; m_rid := 1; m_tuning := dflt |} in
+  trace_of 3 [0] [ERequest 1 7 dflt; ECancel 1; EFire; EFire; EFire; EFire; EFire] =
+  [ODraw 0 2000000 3000000 2000000; OSend 0 m; OSend 2000000 m; OSend 6000000 m; OSend 14000000 m; OSend 30000000 m].
+Proof. vm_compute. reflexivity. Qed.
+Example C03_separate_response_does_not_stop_retransmission :
+  let m := {| m_remote := 7; m_mid := 3; m_rid := 1; m_tuning := dflt |} in
+  trace_of 3 [0] [ERequest 1 7 dflt; EResponse 7 2 99 1; EFire; EFire; EFire; EFire; EFire; ERequest 2 7 dflt] =
+  [ODraw 0 2000000 3000000 2000000; OSend 0 m; OResult 0 1; OSend 2000000 m; OSend 6000000 m; OSend 14000000 m; OSend 30000000 m;
+   ODraw 62000000 2000000 3000000 2000000; OSend 62000000 {| m_remote := 7; m_mid := 4; m_rid := 2; m_tuning := dflt |}].
+Proof. vm_compute. reflexivity. Qed.
+(* whereas the piggy-backed response is an ACK *)
+Example C03_piggybacked_response_stops :
+  let m := {| m_remote := 7; m_mid := 3; m_rid := 1; m_tuning := dflt |} in
+  trace_of 3 [0] [ERequest 1 7 dflt; EFire; EResponse 7 0 3 1; EFire; EFire] =
+  [ODraw 0 2000000 3000000 2000000; OSend 0 m; OSend 2000000 m; OResult 2000000 1].
+Proof. vm_compute. reflexivity. Qed.
+
+(* OPEN FINDING (known_findings.d/C03.json): with a transport that refuses a datagram synchronously (udp6 sendmsg failing:
+   dispatch_error runs inside message_interface.send), a refused RETRANSMISSION leaves the exchange re-inserted by _retransmit after
+   dispatch_error removed it.  Witness: requests 0, 1 to remote 0; the first retransmission (t = 2 s) is refused -> both requests
+   fail with NetworkError; the transport recovers; request 0, already failed, is retransmitted at 6, 14, 30 s; request 2 (sent at 6 s,
+   own deadline 6+62 = 68 s) shares the remote with the zombie, which violates NSTART, and is failed by the zombie's give-up at
+   62 s; at 68 s its own give-up raises KeyError inside the timer callback.  So without the hypothesis "transport does not refuse"
+   C03_gives_up (failure exactly one doubled interval after the last copy), C03_no_internal_error and C03_nstart_invariant are false. *)
+Definition tn1 : tuning := {| ACK_TIMEOUT := 2000000; ARF_num := 1; ARF_den := 1; MAX_RETRANSMIT := 4 |}.
+Definition refused_witness : list event :=
+  [ERequest 0 0 tn1; ERequest 1 0 tn1; ERefuse 0 true; EFire; ERefuse 0 false; EFire; ERequest 2 0 tn1;
+   EFire; EFire; EFire; EFire; EFire; EFire; EFire; EFire].
+Example C03_refused_retransmission_refuted :
+  let m0 := {| m_remote := 0; m_mid := 10; m_rid := 0; m_tuning := tn1 |} in
+  let m2 := {| m_remote := 0; m_mid := 12; m_rid := 2; m_tuning := tn1 |} in
+  trace_of 10 [0; 0; 0] refused_witness =
+  [ODraw 0 2000000 2000000 2000000; OSend 0 m0;
+   OFail 2000000 0 NetworkError; OFail 2000000 1 NetworkError;
+   OSend 6000000 m0;
+   ODraw 6000000 2000000 2000000 2000000; OSend 6000000 m2; OSend 8000000 m2; OSend 12000000 m2; OSend 14000000 m0; OSend 20000000 m2;
+   OSend 30000000 m0; OSend 36000000 m2;
+   OFail 62000000 2 ConRetransmitsExceeded;
+   OError 68000000 KeyError].
+Proof. vm_compute. reflexivity. Qed.
+(* a refused release of a backlogged message: KeyError out of _continue_backlog (second open finding) *)
+Example C03_refused_backlog_release_refuted :
+  trace_of 10 [0; 0] [ERequest 0 0 tn1; ERequest 1 0 tn1; ERefuse 0 true; ERecv 0 false 10] =
+  [ODraw 0 2000000 2000000 2000000; OSend 0 {| m_remote := 0; m_mid := 10; m_rid := 0; m_tuning := tn1 |};
+   ODraw 0 2000000 2000000 2000000; OFail 0 0 NetworkError; OFail 0 1 NetworkError; OError 0 KeyError].
+Proof. vm_compute. reflexivity. Qed.
+(* a refused FIRST transmission is handled cleanly: the request fails at once, nothing is left behind *)
+Example C03_refused_first_transmission_clean :
+  run_trace 10 [0] [ERefuse 0 true; ERequest 0 0 tn1; EFire] =
+  ([[]; [ODraw 0 2000000 2000000 2000000; OFail 0 0 NetworkError]; []], ([], [], []), 0).
+Proof. vm_compute. reflexivity. Qed.
+
 Example C03_range_nonvacuous : wf_tuning dflt /\ range dflt 2000000 /\ range dflt 3000000 /\ ~ range dflt 3000001.
 Proof. unfold wf_tuning, range, dflt; cbn. lia. Qed.
